@@ -174,3 +174,59 @@ PROPS["C05"] = {
     "record": [{"group": "threads", "trace_module": "Trace_Training", "require": {"distinct_completion_orders": 2}}],
     "assumptions": TRAIN_ASSUME,
 }
+
+PROPS["C12"] = {
+    "level": "model_checking",
+    "exhaustive": True,
+    "technique": "TLC model checking of the chunked parallel map with ordered collection (ValidateSM.tla) and of the aggregation formulas on integer "
+                 "data + exact replay into validate()/predict_batch()/predict()",
+    "level_text": "TLC explores every evaluation order of the 64-element chunks for data-set sizes below, at and above the chunk size and checks that "
+                  "results are collected in input order; for every data set it computes the exact mean loss and mean accuracy under both accuracy "
+                  "rules (arg-max for soft-max outputs, tolerance otherwise, one and several outputs); every case is replayed through an identity "
+                  "output layer (prediction = input) and compared bit for bit, predict_batch()[i] must equal predict(x_i) and the last forward "
+                  "activation, and generic networks are checked against the same aggregation composed from their own predict() and objective",
+    "level_note": "integer predictions/targets in -3..3, output lengths 1/2/4, tolerances 0.5 and 1.5, AE and MSE exact; other objectives and float "
+                  "data only through the composed oracle (1e-6)",
+    "rule": "one case = one (size, output length, accuracy rule, tolerance, objective, seed) data set; all distinct; non-trivial = all",
+    "mc": [{"module": "MC_C12",
+            "consts": {"quick": {"Ns": "{1, 2, 63, 64, 65, 129}", "Lens": "{1, 2, 4}", "Seeds": "{1}"},
+                       "thorough": {"Ns": "{1, 2, 3, 63, 64, 65, 127, 128, 129, 200, 257}", "Lens": "{1, 2, 4}", "Seeds": "{1, 2, 3}"}},
+            "workers": 8}],
+    "record": [{"group": "training", "trace_module": "Trace_Training"}],
+    "assumptions": TRAIN_ASSUME,
+}
+
+def net_mc(quick, thorough, tiers=("quick", "thorough")):
+    keys = ["Depth", "InputSel", "MenuSel", "DataSeeds", "CheckFD", "FlatMax"]
+    return {"module": "MC_Net", "consts": {"quick": dict(zip(keys, quick)), "thorough": dict(zip(keys, thorough))},
+            "workers": 12, "timeout": {"quick": 600, "thorough": 10800}, "tiers": tiers, "coverage": False}
+
+ALL_MENU = "{1, 2, 3, 4, 5, 6, 7, 8, 9, 10, 11}"
+NET_MENU_QUICK = net_mc([2, "{1, 5, 6}", "{1, 2, 5, 6, 8, 9, 10}", "{1}", "FALSE", 0],
+                        [3, "{1, 2, 3, 5, 6, 7, 8}", ALL_MENU, "{1, 2}", "FALSE", 0])
+NET_FLAT = net_mc([2, "{1}", "{1}", "{1}", "FALSE", 40], [2, "{1}", "{1}", "{1}", "FALSE", 100])
+NET_FD = net_mc([2, "{1, 5}", "{1, 4, 6, 10}", "{1}", "TRUE", 0], [2, "{1, 5}", "{1, 4, 5, 6, 8, 10}", "{1}", "TRUE", 0], tiers=("thorough",))
+
+PROPS["C08"] = {
+    "level": "model_checking",
+    "exhaustive": True,
+    "technique": "TLC model checking of the builder state machine (Network.tla / MC_Net) + replay of every builder behaviour into the real builder, "
+                 "Display, forward and backward",
+    "level_text": "TLC enumerates all builder behaviours over a menu of dense/conv/deconv/max-pool configurations (non-square kernels, asymmetric "
+                  "stride/padding/dilation) from flat and spatial inputs up to the depth bound, plus every flat size 1..40 (100) followed by each "
+                  "spatial layer kind, and checks announced = produced shapes in the model; each behaviour is replayed: accept/reject per call "
+                  "(panic = rejection), shapes announced in the Display output, dimensions of every tensor returned by forward on seeded data, "
+                  "values through flat<->spatial transitions (row-major order), and gradient shapes against parameter shapes",
+    "level_note": "depth <= 2 (3) over a fixed 11-entry menu; single-layer lattice shapes are covered by the C02 instance (produced_shape checks)",
+    "rule": "one case = one complete builder behaviour (input shape + add sequence incl. at most one rejected call) evaluated on seeded data; "
+            "distinct = distinct behaviours; non-trivial = at least one accepted layer",
+    "mc": [NET_MENU_QUICK, NET_FLAT,
+           {"module": "MC_Layers",
+            "consts": {"quick": {"Kinds": ALL_KINDS, "MaxHW": 5, "Stride": 61, "Pick": pick_from_seed, "DataSeeds": "{1}", "CheckFD": "FALSE"},
+                       "thorough": {"Kinds": ALL_KINDS, "MaxHW": 6, "Stride": 3, "Pick": pick_from_seed, "DataSeeds": "{1}", "CheckFD": "FALSE"}},
+            "workers": 12, "timeout": {"quick": 900, "thorough": 7200}}],
+    "assumptions": COMMON_ASSUMPTIONS + ["announced shapes are read from the `in -> out` line of each layer in the network's Display output"],
+}
+PROPS["C02"]["mc"].append(NET_MENU_QUICK)
+PROPS["C01"]["mc"].append(NET_MENU_QUICK)
+PROPS["C01"]["mc"].append(NET_FD)
